@@ -1697,18 +1697,33 @@ class Bounds:
     def unpack_fmt(self, call, f: Func):
         """format string of a struct-style unpack call, with byte order made explicit; None if not literal"""
         fn = call.func
-        if isinstance(fn, ast.Name) and fn.id in ("unpack", "unpack_from") and call.args:
+        if isinstance(fn, ast.Name) and fn.id in ("unpack", "unpack_from") and call.args and fn.id not in self._local_names(f):
             imp = f.module.imports.get(fn.id)
             if imp and imp[0] == "struct":
                 v = self.fold(call.args[0], f)
                 return v if isinstance(v, str) else None
             return None
+        if isinstance(fn, ast.Name):
+            b = self.bound_unpack(fn, f)
+            return self.struct_fmt(b.value, f) if b is not None else None
         if isinstance(fn, ast.Attribute) and fn.attr in ("unpack", "unpack_from"):
             recv = fn.value
             if isinstance(recv, ast.Name) and recv.id == "struct" and f.module.imports.get("struct") == ("struct", None) and call.args:
                 v = self.fold(call.args[0], f)
                 return v if isinstance(v, str) else None
             return self.struct_fmt(recv, f)
+        return None
+
+    def bound_unpack(self, name_node, f: Func):
+        """a local name bound to `<struct object>.unpack` (bound-method alias) -> the Attribute node, else None"""
+        if not isinstance(name_node, ast.Name) or name_node.id not in self._local_names(f):
+            return None
+        dd = self.cg.dominating_def(name_node, f) if parent(name_node) is not None else None
+        if dd is None:
+            rhs = self.cg._assignments_to_name(f, name_node.id)
+            dd = rhs[0] if len(rhs) == 1 and isinstance(rhs[0], ast.AST) else None
+        if isinstance(dd, ast.Attribute) and dd.attr == "unpack":
+            return dd
         return None
 
     def struct_fmt(self, e, f: Func, depth=0):
@@ -2212,7 +2227,10 @@ class StreamAnalysis:
     # ------------------------------------------------------------------ checked reads
     def checked_read(self, call, f: Func):
         """`call` is struct-style unpack of S.read(n) with n == calcsize(fmt) > 0 -> (key, n, read_call) else None"""
-        if not isinstance(call, ast.Call) or not CallGraph._is_unpack_call(call):
+        if not isinstance(call, ast.Call):
+            return None
+        alias = isinstance(call.func, ast.Name) and self.b.bound_unpack(call.func, f) is not None
+        if not alias and not CallGraph._is_unpack_call(call):
             return None
         fmt = self.b.unpack_fmt(call, f)
         if fmt is None:
@@ -2222,7 +2240,11 @@ class StreamAnalysis:
         except struct.error:
             return None
         fn = call.func
-        if isinstance(fn, ast.Name) or (isinstance(fn, ast.Attribute) and isinstance(fn.value, ast.Name) and fn.value.id == "struct"):
+        if alias:
+            if not call.args:
+                return None
+            arg = call.args[0]
+        elif isinstance(fn, ast.Name) or (isinstance(fn, ast.Attribute) and isinstance(fn.value, ast.Name) and fn.value.id == "struct"):
             if len(call.args) < 2:
                 return None
             arg = call.args[1]
@@ -2391,6 +2413,9 @@ class StreamAnalysis:
         st = SState()
         if isinstance(loop, ast.While):
             st = run.expr(loop.test, st)
+            tr = run._truthy_read(loop.test) if st is not None else None
+            if tr is not None:
+                st = run._refine_nonempty(st, tr[2])
             out = run.block(loop.body, st)
             back = s_join(out.fall, out.cont)
         elif isinstance(loop, (ast.For, ast.AsyncFor)):
@@ -2544,32 +2569,77 @@ class _Run:
                     return (r[0], r[1] + d[0], r[2] + d[1])
         return None
 
+    def _piece_of_read(self, x, depth=0):
+        """x is (part of) the bytes a read returned: -> (name of the read result z, bytes certainly NOT in x) else None.
+        Understood: z itself, z[i:], z.split(SEP, 1)[1] (SEP non-empty: the piece after the first separator),
+        elements of z.split/partition/rpartition bound by tuple unpacking or subscript, names bound to such pieces."""
+        f = self.f
+        if depth > 3:
+            return None
+        if isinstance(x, ast.Name):
+            # a tuple-unpacked element:  head, sep, tail = z.partition(SEP)
+            n = x
+            dd = self.cg.dominating_def(x, f)
+            if dd is not None:
+                r = self._piece_of_read(dd, depth + 1)
+                if r is not None:
+                    return r
+                if isinstance(dd, ast.Call) and isinstance(dd.func, ast.Attribute) and dd.func.attr == "read":
+                    return (x.id, 0)
+            for st_ in own_nodes(f.node):
+                if isinstance(st_, ast.Assign) and len(st_.targets) == 1 and isinstance(st_.targets[0], (ast.Tuple, ast.List)) \
+                        and any(isinstance(t, ast.Name) and t.id == x.id for t in st_.targets[0].elts):
+                    v = st_.value
+                    if isinstance(v, ast.Call) and isinstance(v.func, ast.Attribute) and v.func.attr in ("partition", "rpartition", "split", "rsplit") \
+                            and isinstance(v.func.value, ast.Name) and len(self.cg._assignments_to_name(f, x.id)) == 1:
+                        return (v.func.value.id, 0)
+            return None
+        if isinstance(x, ast.Subscript) and isinstance(x.value, ast.Name):
+            if isinstance(x.slice, ast.Slice):
+                r = self._piece_of_read(x.value, depth + 1)
+                return r
+            sdef = self.cg.dominating_def(x.value, f)
+            if isinstance(sdef, ast.Call) and isinstance(sdef.func, ast.Attribute) and sdef.func.attr in ("split", "rsplit", "partition", "rpartition") \
+                    and isinstance(sdef.func.value, ast.Name):
+                removed = 0
+                if sdef.func.attr == "split" and len(sdef.args) == 2 and isinstance(sdef.args[1], ast.Constant) and sdef.args[1].value == 1 \
+                        and isinstance(x.slice, ast.Constant) and x.slice.value in (1, -1):
+                    sep = self.b.fold(sdef.args[0], f)
+                    if isinstance(sep, (bytes, str)) and len(sep) >= 1:
+                        removed = len(sep)   # s[1] exists only if the separator was found
+                return (sdef.func.value.id, removed)
+        return None
+
     def _pushback(self, e, st):
-        """`P - len(s[1])` where P = S.tell() taken right after `z = S.read(n)` and s = z.split(SEP, 1):
-        the part after the first separator is at most len(z) - len(SEP) long, so the value is
-        >= position before the read + len(SEP)  (un-reading the remainder of a chunk)."""
+        """`P - len(x)` where P is the position right after `z = S.read(n)` (a saved `S.tell()` or `S.tell()` itself)
+        and x is a piece of z: un-reading the rest of a chunk.  The value is >= position before the read
+        (+ len(SEP) for the piece after the first separator of `z.split(SEP, 1)`)."""
         f = self.f
         P, r = e.left, e.right
-        if not (isinstance(P, ast.Name) and isinstance(r, ast.Call) and isinstance(r.func, ast.Name) and r.func.id == "len" and len(r.args) == 1):
+        if not (isinstance(r, ast.Call) and isinstance(r.func, ast.Name) and r.func.id == "len" and len(r.args) == 1):
             return None
-        x = r.args[0]
-        if not (isinstance(x, ast.Subscript) and isinstance(x.value, ast.Name) and isinstance(x.slice, ast.Constant) and x.slice.value in (1, -1)):
+        pc = self._piece_of_read(r.args[0])
+        if pc is None:
             return None
-        sdef = self.cg.dominating_def(x.value, f)
-        if not (isinstance(sdef, ast.Call) and isinstance(sdef.func, ast.Attribute) and sdef.func.attr == "split" and isinstance(sdef.func.value, ast.Name)
-                and len(sdef.args) == 2 and isinstance(sdef.args[1], ast.Constant) and sdef.args[1].value == 1):
-            return None
-        sep = self.b.fold(sdef.args[0], f)
-        if not (isinstance(sep, (bytes, str)) and len(sep) >= 1):
-            return None
-        z = sdef.func.value.id
+        z, removed = pc
         rp = st.saved.get("@read:" + z)
-        pv = st.saved.get(P.id)
-        if rp is None or pv is None or rp[0] != pv[0]:
+        if rp is None:
             return None
-        if st.stok.get("@read:" + z) is None or st.stok.get("@read:" + z) != st.stok.get(P.id):
+        if isinstance(P, ast.Name):
+            pv = st.saved.get(P.id)
+            ptok = st.stok.get(P.id)
+        elif isinstance(P, ast.Call) and isinstance(P.func, ast.Attribute) and P.func.attr == "tell" and not P.args \
+                and self.sa.key_of(P.func.value, f) == rp[0]:
+            p = st.p(rp[0])
+            pv = (rp[0], p[0], p[1])
+            ptok = st.tok.get(rp[0], 0)
+        else:
+            return None
+        if pv is None or rp[0] != pv[0]:
+            return None
+        if st.stok.get("@read:" + z) is None or st.stok.get("@read:" + z) != ptok:
             return None  # the stream moved between the read and the tell()
-        return (pv[0], rp[1] + len(sep), pv[2])
+        return (pv[0], rp[1] + removed, pv[2])
 
     def _int(self, e, subst=None):
         if subst is None:
@@ -2577,9 +2647,9 @@ class _Run:
         return self.b.eval(e, subst[3], 0, (subst[0], subst[2]))
 
     def _empty_read_test(self, ifs: ast.If):
-        """`ifs` directly follows `z = S.read(..)` and tests z for emptiness -> (key, True if the true
-        branch is the empty case); the empty branch must leave (raise/return/break/continue are all fine
-        for the caller: the refinement is applied to the non-empty branch only)."""
+        """`ifs` directly follows `z = S.read(N)` and tests the length of z -> (key, True if the TRUE branch is the
+        short/empty case, k) where k >= 1 bytes are certainly consumed on the other branch; None if not such a test.
+        The refinement is applied to the long branch only, so it is irrelevant what the short branch does."""
         p = parent(ifs)
         prev = None
         for fld in ("body", "orelse", "finalbody"):
@@ -2594,30 +2664,161 @@ class _Run:
         if rd is None or rd[2] is None:
             return None
         z = prev.targets[0].id
-        n = self.b.eval(rd[1], self.f)
-        if not (n[0] >= 1):
-            return None  # read(0) / read(-1) legitimately return b'' / everything
+        nexpr = rd[1]
+        # whatever the requested size: a non-empty result means >= 1 byte was consumed, an empty one leaves
         t = ifs.test
+        neg = False
+        if isinstance(t, ast.UnaryOp) and isinstance(t.op, ast.Not):
+            t, neg = t.operand, True
         isz = lambda x: isinstance(x, ast.Name) and x.id == z
         islen = lambda x: isinstance(x, ast.Call) and isinstance(x.func, ast.Name) and x.func.id == "len" and len(x.args) == 1 and isz(x.args[0])
         empty_const = lambda x: isinstance(x, ast.Constant) and x.value in (b"", "")
-        if isinstance(t, ast.UnaryOp) and isinstance(t.op, ast.Not) and (isz(t.operand) or islen(t.operand)):
-            return (rd[0], True)
+        res = None      # (true branch is the short case, k)
         if isz(t) or islen(t):
-            return (rd[0], False)
-        if isinstance(t, ast.Compare) and len(t.ops) == 1:
+            res = (False, 1)
+        elif isinstance(t, ast.Compare) and len(t.ops) == 1:
             l, r, op = t.left, t.comparators[0], t.ops[0]
-            if islen(l) and isinstance(r, ast.Constant) and isinstance(r.value, int):
-                if (isinstance(op, ast.Eq) and r.value == 0) or (isinstance(op, ast.Lt) and r.value == 1) or (isinstance(op, ast.LtE) and r.value == 0):
-                    return (rd[0], True)
-                if (isinstance(op, ast.NotEq) and r.value == 0) or (isinstance(op, ast.Gt) and r.value == 0) or (isinstance(op, ast.GtE) and r.value == 1):
-                    return (rd[0], False)
-            if isz(l) and empty_const(r):
+            if islen(r) and not islen(l):
+                l, r = r, l
+                op = {ast.Lt: ast.Gt, ast.LtE: ast.GtE, ast.Gt: ast.Lt, ast.GtE: ast.LtE}.get(type(op), type(op))()
+            if islen(l):
+                if ast.dump(r) == ast.dump(nexpr):
+                    b = self.b.eval(nexpr, self.f)
+                else:
+                    b = self.b.eval(r, self.f)
+                c = b[0] if b[0] > -INF else 0
+                if isinstance(op, ast.Lt):
+                    res = (True, c)
+                elif isinstance(op, ast.LtE):
+                    res = (True, c + 1)
+                elif isinstance(op, ast.NotEq):
+                    res = (True, c) if c >= 1 else ((False, 1) if b == (0, 0) else None)
+                elif isinstance(op, ast.Eq):
+                    res = (False, c) if c >= 1 else ((True, 1) if b == (0, 0) else None)
+                elif isinstance(op, ast.GtE):
+                    res = (False, c)
+                elif isinstance(op, ast.Gt):
+                    res = (False, c + 1)
+            elif isz(l) and empty_const(r):
                 if isinstance(op, ast.Eq):
-                    return (rd[0], True)
-                if isinstance(op, ast.NotEq):
-                    return (rd[0], False)
+                    res = (True, 1)
+                elif isinstance(op, ast.NotEq):
+                    res = (False, 1)
+        if res is None or res[1] < 1 or res[1] == INF:
+            return None
+        short_true, k = res
+        if neg:
+            short_true = not short_true
+        return (rd[0], short_true, int(k))
+
+    def read_result_is_inert(self, rcall):
+        """the bytes returned by this (unchecked) read are only stored / accumulated / searched / length-tested in ways
+        this analysis understands -- nothing that could reject a short result behind our back (indexing `z[0]`,
+        `ord`, `int.from_bytes`, an unknown callee ...).  Needed before a read may count as *definitely* unchecked."""
+        return self._inert_use(rcall, 0)
+
+    _INERT_METHODS = ("split", "rsplit", "partition", "rpartition", "startswith", "endswith", "find", "rfind", "count", "strip",
+                      "rstrip", "lstrip", "hex", "decode", "replace", "join", "lower", "upper")
+    _INERT_SINKS = ("append", "extend", "add", "write", "update", "insert", "appendleft", "put", "setdefault")
+    _INERT_FUNCS = ("len", "any", "all", "bytes", "bytearray", "repr", "str", "print", "isinstance", "memoryview", "list", "tuple", "id", "hash")
+
+    def _inert_use(self, node, depth):
+        if depth > 6:
+            return False
+        p = parent(node)
+        if p is None:
+            return False
+        if isinstance(p, ast.Expr):
+            return True
+        if isinstance(p, (ast.Return, ast.Yield)):
+            return True
+        if isinstance(p, (ast.Tuple, ast.List, ast.Set, ast.Dict, ast.Starred, ast.FormattedValue, ast.JoinedStr, ast.keyword)) and not isinstance(p, ast.keyword):
+            return self._inert_use(p, depth + 1)
+        if isinstance(p, ast.Compare):
+            return True
+        if isinstance(p, ast.BoolOp) or (isinstance(p, ast.UnaryOp) and isinstance(p.op, ast.Not)):
+            return True
+        if isinstance(p, (ast.If, ast.While, ast.IfExp)) and getattr(p, "test", None) is node:
+            return True
+        if isinstance(p, ast.BinOp) and isinstance(p.op, (ast.Add, ast.Mod)):
+            return self._inert_use(p, depth + 1) if isinstance(p.op, ast.Add) else True
+        if isinstance(p, ast.Subscript) and p.value is node:
+            return isinstance(p.slice, ast.Slice) and self._inert_use(p, depth + 1)
+        if isinstance(p, ast.Attribute) and p.value is node:
+            pp = parent(p)
+            if isinstance(pp, ast.Call) and pp.func is p and p.attr in self._INERT_METHODS:
+                return True if p.attr in ("startswith", "endswith", "find", "rfind", "count") else self._inert_use(pp, depth + 1)
+            return False
+        if isinstance(p, ast.Call):
+            fn = p.func
+            if node is fn:
+                return False
+            if isinstance(fn, ast.Name) and fn.id in self._INERT_FUNCS and fn.id not in self.b._local_names(self.f):
+                return True if fn.id in ("len", "any", "all", "print", "isinstance", "id", "hash", "repr", "str") else self._inert_use(p, depth + 1)
+            if isinstance(fn, ast.Attribute) and fn.attr in self._INERT_SINKS:
+                return True
+            if isinstance(fn, ast.Attribute) and ast.unparse(fn).startswith(("logger.", "logging.")):
+                return True
+            r = self.cg.resolve_callable(fn, self.f)
+            if r is not None and r[0] == "external" and r[1] in ("io.BytesIO", "BytesIO", "io.BufferedReader"):
+                return True   # a sub-stream: its own reads are analysed where they happen
+            if self.sa.checked_read(p, self.f) is not None or CallGraph._is_unpack_call(p):
+                return True   # accounted for as (un)checked unpack
+            ts, kind = self.cg.resolve_call(p, self.f)
+            if ts and kind in ("direct", "ctor", "typed", "super", "table", "hof") and depth <= 2:
+                # a repository callee: its parameter must be used inertly as well
+                for t in ts:
+                    if t.name == "__new__":
+                        continue
+                    pn = self._param_receiving(p, t, kind, node)
+                    if pn is None or not self._param_inert(t, pn, depth + 1):
+                        return False
+                return True
+            return False
+        if isinstance(p, (ast.Assign, ast.AnnAssign, ast.NamedExpr, ast.AugAssign)):
+            tgts = p.targets if isinstance(p, ast.Assign) else [p.target]
+            if isinstance(p, ast.AugAssign):
+                return True    # acc += z
+            for t in tgts:
+                if isinstance(t, ast.Name):
+                    if not self._name_uses_inert(t.id, self.f, depth + 1, after=p):
+                        return False
+                elif isinstance(t, (ast.Attribute, ast.Subscript)):
+                    continue    # stored
+                else:
+                    return False   # tuple unpacking of the raw bytes: `a, b = f.read(2)` raises on short data
+            if isinstance(p, ast.NamedExpr):
+                return self._inert_use(p, depth + 1)
+            return True
+        if isinstance(p, ast.withitem):
+            return True
+        return False
+
+    def _name_uses_inert(self, name, f, depth, after=None):
+        key = ("inert", id(f.node), name)
+        cache = self.sa.__dict__.setdefault("_inert_cache", {})
+        if key in cache:
+            return cache[key]
+        cache[key] = True
+        ok = True
+        for n in own_nodes(f.node):
+            if isinstance(n, ast.Name) and n.id == name and isinstance(n.ctx, ast.Load):
+                if not self._inert_use(n, depth):
+                    ok = False
+                    break
+        cache[key] = ok
+        return ok
+
+    def _param_receiving(self, call, tgt, kind, node):
+        ps = [a.arg for a in tgt.node.args.posonlyargs + tgt.node.args.args]
+        for pn in ps:
+            if self._arg_for_param(call, tgt, pn, kind) is node:
+                return pn
         return None
+
+    def _param_inert(self, tgt, pname, depth):
+        r2 = _Run(self.sa, tgt)
+        return r2._name_uses_inert(pname, tgt, depth)
 
     def _counter_delta(self, name, value):
         """value assigned to counter `name`, as a delta interval relative to its old value (None: unknown)"""
@@ -2791,16 +2992,16 @@ class _Run:
             st_t, st_f = st.copy(), st.copy()
             er = self._empty_read_test(s)
             if er is not None:
-                key, when_empty = er
-                ne = st_f if when_empty else st_t   # the branch on which the read returned >= 1 byte
+                key, when_empty, kk = er
+                ne = st_f if when_empty else st_t   # the branch on which the read returned >= kk bytes
                 p = ne.p(key)
                 if p[0] != -INF:
-                    # position was (before + [0, n]); a non-empty result means at least one byte was consumed,
-                    # and the empty (EOF) case leaves through the other branch: the read is checked
+                    # position was (before + [0, n]); a result of >= kk bytes means that many were consumed,
+                    # and the short (EOF) case goes through the other branch: the read is checked
                     if p[0] >= 0:
-                        ne.anch[key] = ne.a(key) + 1
+                        ne.anch[key] = ne.a(key) + kk
                     tk = ne.tok.get(key)
-                    self._setpos(ne, key, (p[0] + 1, max(p[1], p[0] + 1)))
+                    self._setpos(ne, key, (p[0] + kk, max(p[1], p[0] + kk)))
                     if tk is not None:
                         ne.tok[key] = tk  # knowledge was refined, the stream did not move
             if self.oracle is not None and self.loop_depth == 0:
@@ -2813,6 +3014,9 @@ class _Run:
         if isinstance(s, ast.While):
             return self._loop(s, st, test=s.test)
         if isinstance(s, (ast.For, ast.AsyncFor)):
+            sr = self._sentinel_read_iter(s.iter)
+            if sr is not None:
+                return self._sentinel_loop(s, st, sr)
             st = self.expr(s.iter, st)
             if st is None:
                 return Out()
@@ -2899,6 +3103,111 @@ class _Run:
                     pass
         return st
 
+    def _sentinel_read_iter(self, it):
+        """`iter(lambda: S.read(n), b'')` (or functools.partial(S.read, n)) -> (key, read call or None, n interval)"""
+        if isinstance(it, ast.Call) and not (isinstance(it.func, ast.Name) and it.func.id == "iter"):
+            return self._chunk_generator(it)
+        if not (isinstance(it, ast.Call) and isinstance(it.func, ast.Name) and it.func.id == "iter" and len(it.args) == 2):
+            return None
+        sent = it.args[1]
+        if not (isinstance(sent, ast.Constant) and sent.value in (b"", "")):
+            return None
+        src = it.args[0]
+        if isinstance(src, ast.Lambda) and not src.args.args:
+            rd = self.sa._as_read(src.body, self.f)
+            if rd is not None and rd[2] is src.body:
+                n = self.b.eval(rd[1], self.f)
+                return (rd[0], src.body, n if n[0] >= 0 else (0, INF))
+        if isinstance(src, ast.Call) and ast.unparse(src.func) in ("partial", "functools.partial") and len(src.args) == 2 \
+                and isinstance(src.args[0], ast.Attribute) and src.args[0].attr == "read" and self.sa.is_stream_recv(src.args[0].value, self.f):
+            key = self.sa.key_of(src.args[0].value, self.f)
+            n = self.b.eval(src.args[1], self.f)
+            if key is not None:
+                return (key, None, n if n[0] >= 0 else (0, INF))
+        return None
+
+    def _chunk_generator(self, call):
+        """call of a repository generator of the shape
+               while <c>:  z = P.read(E);  if <z is empty>: return|break;  yield z
+           (P a parameter): iterating it is `for z in iter(lambda: S.read(E), b'')` on the argument stream."""
+        ts, kind = self.cg.resolve_call(call, self.f)
+        if len(ts) != 1 or kind not in ("direct", "typed", "super"):
+            return None
+        g = ts[0]
+        body = [x for x in g.node.body if not (isinstance(x, ast.Expr) and isinstance(x.value, ast.Constant))]
+        if len(body) != 1 or not isinstance(body[0], ast.While) or body[0].orelse:
+            return None
+        lb = body[0].body
+        if len(lb) != 3:
+            return None
+        a, c, y = lb
+        if not (isinstance(a, ast.Assign) and len(a.targets) == 1 and isinstance(a.targets[0], ast.Name) and isinstance(a.value, ast.Call)
+                and isinstance(a.value.func, ast.Attribute) and a.value.func.attr == "read" and isinstance(a.value.func.value, ast.Name)):
+            return None
+        z, pname = a.targets[0].id, a.value.func.value.id
+        if not (isinstance(y, ast.Expr) and isinstance(y.value, ast.Yield) and isinstance(y.value.value, ast.Name) and y.value.value.id == z):
+            return None
+        if not (isinstance(c, ast.If) and not c.orelse and len(c.body) == 1 and isinstance(c.body[0], (ast.Return, ast.Break))):
+            return None
+        t = c.test
+        empty = (isinstance(t, ast.UnaryOp) and isinstance(t.op, ast.Not) and isinstance(t.operand, ast.Name) and t.operand.id == z) or \
+                (isinstance(t, ast.Compare) and len(t.ops) == 1 and isinstance(t.ops[0], ast.Eq) and isinstance(t.left, ast.Name) and t.left.id == z
+                 and isinstance(t.comparators[0], ast.Constant) and t.comparators[0].value in (b"", "")) or \
+                (isinstance(t, ast.Compare) and len(t.ops) == 1 and isinstance(t.ops[0], ast.Eq) and isinstance(t.left, ast.Call)
+                 and ast.unparse(t.left) == "len(%s)" % z and isinstance(t.comparators[0], ast.Constant) and t.comparators[0].value == 0)
+        if not empty:
+            return None
+        if any(isinstance(n, ast.Name) and n.id == pname and isinstance(n.ctx, ast.Store) for n in ast.walk(g.node)):
+            return None
+        arg = self._arg_for_param(call, g, pname, kind)
+        if not isinstance(arg, (ast.Name, ast.Attribute)):
+            return None
+        key = self.sa.key_of(arg, self.f)
+        if key is None:
+            return None
+        return (key, None, (0, INF))
+
+    def _sentinel_loop(self, s, st, sr):
+        """for z in iter(<read>, b''): ...  ==  while True: z = read(); if z == b'': break (-> else clause); body"""
+        key, rcall, n = sr
+        self.touches = True
+        head = st
+        brk = ret = None
+        ex = None
+        self.loop_depth += 1
+        try:
+            for i in range(self.MAX_ITER):
+                t = head.copy()
+                before = t.p(key)
+                self._advance(t, key, (0, n[1]))
+                ex = s_join(ex, t.copy())          # the read came back empty: the loop ends normally here
+                t = self._refine_nonempty(t, key)
+                t = self._bind(s.target, None, t, None)
+                if isinstance(s.target, ast.Name):
+                    t.saved["@read:" + s.target.id] = (key, before[0], before[1])
+                    t.stok["@read:" + s.target.id] = t.tok.get(key, 0)
+                o = self.block(s.body, t)
+                brk = s_join(brk, o.brk)
+                ret = s_join(ret, o.ret)
+                back = s_join(o.fall, o.cont)
+                if back is None:
+                    break
+                new = s_join(head, back)
+                if new == head:
+                    break
+                head = s_widen(head, new) if i >= 1 else new
+            else:
+                self.loose.append("inner loop did not stabilise")
+                head = s_widen(head, SState({k: TOP for k in head.keys()}, {k: 0 for k in head.keys()}, {}))
+                ex = s_join(ex, head)
+        finally:
+            self.loop_depth -= 1
+        if s.orelse and ex is not None:
+            o2 = self.block(s.orelse, ex)
+            ex = o2.fall
+            ret = s_join(ret, o2.ret)
+        return Out(fall=s_join(ex, brk), ret=ret)
+
     def _nonempty_const_range(self, it):
         if isinstance(it, ast.Call) and isinstance(it.func, ast.Name) and it.func.id == "range" and not it.keywords:
             v = self.b.fold(it, self.f)
@@ -2932,11 +3241,41 @@ class _Run:
         finally:
             self.loop_depth -= 1
 
+    def _truthy_read(self, test):
+        """loop/if test that is true exactly when a fresh read returned data: `(z := S.read(n))`, `len(z := S.read(n))`,
+        `(z := S.read(n)) != b''` -> (name, read call) else None"""
+        t = test
+        if isinstance(t, ast.Compare) and len(t.ops) == 1 and isinstance(t.ops[0], ast.NotEq) and isinstance(t.comparators[0], ast.Constant) \
+                and t.comparators[0].value in (b"", ""):
+            t = t.left
+        if isinstance(t, ast.Call) and isinstance(t.func, ast.Name) and t.func.id == "len" and len(t.args) == 1:
+            t = t.args[0]
+        if isinstance(t, ast.NamedExpr) and isinstance(t.target, ast.Name):
+            rd = self.sa._as_read(t.value, self.f)
+            if rd is not None and rd[2] is t.value:
+                return (t.target.id, t.value, rd[0])
+        return None
+
+    def _refine_nonempty(self, st, key):
+        """the read just performed on `key` returned at least one byte (its empty case leaves): a checked read"""
+        p = st.p(key)
+        if p[0] != -INF:
+            if p[0] >= 0:
+                st.anch[key] = st.a(key) + 1
+            tk = st.tok.get(key)
+            self._setpos(st, key, (p[0] + 1, max(p[1], p[0] + 1)))
+            if tk is not None:
+                st.tok[key] = tk
+        return st
+
     def _loop_inner(self, s, head, test, target, infinite, brk, ret):
         for i in range(self.MAX_ITER):
             t = head.copy()
             if test is not None:
                 t = self.expr(test, t)
+                tr = self._truthy_read(test) if t is not None else None
+                if tr is not None:
+                    t = self._refine_nonempty(t, tr[2])
             if target is not None and t is not None:
                 t = self._bind(target, None, t, None)
             if t is None:
@@ -3237,6 +3576,8 @@ class _Run:
                     p = st.p(key)
                     if b[0] == b[1] and p[1] + b[1] <= st.kend.get(key, -INF):
                         lo = b[0]   # the bytes are known to exist: a checked read already got past them
+            if lo == 0 and not self.read_result_is_inert(e):
+                self.loose.append("the bytes returned by `%s` are used in a way that may reject a short read" % ast.unparse(e)[:50])
             self._advance(st, key, (lo, hi))
             return st
         # seek
@@ -3285,20 +3626,32 @@ class _Run:
         self.loose.append("seek relative to the end of the stream")
         return st
 
-    def _param_target(self, e):
-        """seek target `p`, `p + c`, `p - c` with p a never re-bound parameter -> (p, lo, hi)"""
+    def _param_target(self, e, depth=0):
+        """seek target `p`, `p.attr`, `p + c`, `p - c` (p a never re-bound parameter; through local aliases)
+        -> (dotted text rooted at the parameter, lo, hi)"""
         base, d = e, ZERO
-        if isinstance(e, ast.BinOp) and isinstance(e.op, (ast.Add, ast.Sub)) and isinstance(e.left, ast.Name):
+        if isinstance(e, ast.BinOp) and isinstance(e.op, (ast.Add, ast.Sub)):
             dv = self._int(e.right)
-            if dv == TOP:
+            if dv == TOP or dv[0] == -INF or dv[1] == INF:
                 return None
             base, d = e.left, (dv if isinstance(e.op, ast.Add) else iv_neg(dv))
-        if not isinstance(base, ast.Name):
-            return None
         f = self.f
-        if not any(p.arg == base.id for p in self.cg._params_of(f)) or self.cg._assignments_to_name(f, base.id):
+        if isinstance(base, ast.Name) and not any(p.arg == base.id for p in self.cg._params_of(f)) and depth < 3:
+            dd = self.cg.dominating_def(base, f) if parent(base) is not None else None
+            if dd is not None:
+                r = self._param_target(dd, depth + 1)
+                if r is not None:
+                    return (r[0], r[1] + d[0], r[2] + d[1])
             return None
-        return (base.id, d[0], d[1])
+        txt = dotted(base) if isinstance(base, (ast.Name, ast.Attribute)) else None
+        if txt is None:
+            return None
+        root = txt.split(".")[0]
+        if root == self.cg.self_name(f):
+            return None
+        if not any(p.arg == root for p in self.cg._params_of(f)) or self.cg._assignments_to_name(f, root):
+            return None
+        return (txt, d[0], d[1])
 
     def _function_stream_keys(self):
         """keys that this function uses as byte streams anywhere (receiver of read/seek/tell, or a parameter
@@ -3429,7 +3782,14 @@ class _Run:
             ab = summ.abs.get(ckey)
             if ab is not None:
                 # the callee leaves the stream at <argument> + [lo, hi]
-                a_expr = self._arg_for_param(e, tgt, ab[0], kind)
+                root, _, rest = ab[0].partition(".")
+                a_expr = self._arg_for_param(e, tgt, root, kind)
+                if a_expr is not None and rest:
+                    if isinstance(a_expr, (ast.Name, ast.Attribute)):
+                        for part in rest.split("."):
+                            a_expr = ast.Attribute(value=a_expr, attr=part, ctx=ast.Load())
+                    else:
+                        a_expr = None
                 pv = self.pos_value(a_expr, before) if a_expr is not None else None
                 if pv is not None and pv[0] == k:
                     self._setpos(st, k, (pv[1] + ab[1], pv[2] + ab[2]))
